@@ -842,6 +842,7 @@ def run_pv_history(ops):
                 p = slots[s_]
                 if what in (5, 6, 8):
                     if links[s_] is None:
+                        res = None
                         try:
                             getattr(p, PVREAD[what])
                             seen.append((NOTHING, -8))
